@@ -128,7 +128,9 @@ def native_tables():
         tab = natives.extract()
         known = sorted(tab["names"])
         eff = sorted(n for n, info in tab["natives"].items() if not info["secure"])
-        _native_cache["t"] = (known, eff)
+        from ckl.interpreter import Interpreter
+        base = sorted(Interpreter(False, False).base_environment.getSymbols())
+        _native_cache["t"] = (known, eff, base)
     return _native_cache["t"]
 
 
@@ -143,12 +145,12 @@ def ast_or_syn(src, name="f"):
 
 
 def model_request(progs, mods=None, secure=True, fuel=20000):
-    known, eff = native_tables()
+    known, eff, base = native_tables()
+    s_ = lambda xs: "".join(" s:" + proto.enc_str(x) for x in xs)   # noqa
     ms = []
     for fname, src in (mods or {}).items():
         ms.append(f"(s:{proto.enc_str(fname)} user {ast_or_syn(src, 'mod:' + fname[:-4])})")
-    s_ = lambda xs: "".join(" s:" + proto.enc_str(x) for x in xs)   # noqa
-    return ("(session (flags " + ("secure" if secure else "insecure") + f" {fuel}) (mods{''.join(' ' + m for m in ms)}) (base) "
+    return ("(session (flags " + ("secure" if secure else "insecure") + f" {fuel}) (mods{''.join(' ' + m for m in ms)}) (base{s_(base)}) "
             f"(eff{s_(eff)}) (known{s_(known)})" + "".join(f" (prog {ast_or_syn(p)})" for p in progs) + ")")
 
 
